@@ -27,7 +27,7 @@ CAP_OPS = ("bufinsert", "bufset", "slicewrite")
 # equality under the verdict projection (no judgement: TLC computed `exp`)
 # --------------------------------------------------------------------------
 def match(exp, obs):
-    for k in ("vals", "lens", "typs", "frozen"):
+    for k in ("vals", "lens", "typs", "frozen", "refok"):
         if k in exp and obs.get(k) != exp[k]:
             return "%s: expected %s, observed %s" % (k, json.dumps(exp[k])[:300], json.dumps(obs.get(k))[:300])
     if exp["ret"] == "any":
